@@ -1361,6 +1361,11 @@ fn exec_cmd_inner(b: &mut Built, cmd: &Cmd) -> Res {
         }
         Cmd::IntoAuto { slot } => {
             if let Some((k, id)) = w.take_key(*slot) {
+                // Replacing an auto key drops (hence cancels) the previous one.
+                if let Some((old, old_id)) = w.take_auto_key(*slot) {
+                    drop(old);
+                    w.log(Ev::Cancel { by: None, id: old_id });
+                }
                 w.store_auto_key(*slot, k.into_auto(), id);
                 return Res::Ok;
             }
